@@ -293,6 +293,34 @@ fn ids_of<'a, T: El + 'a>(it: impl Iterator<Item = &'a T>, what: &str) -> VResul
     Ok(v)
 }
 
+/// A set built by an operator must behave as a set holding exactly `want`: lookups of members and
+/// non-members, re-insertion of a member (refused), its removal, insertion of a new element.
+fn working_set<T: El>(s: &mut griddle::HashSet<T, crate::hasher::HB>, want: &BTreeSet<u32>, probes: &[u32], probe_to: u32, what: &str) -> VResult<()> {
+    for &k in probes {
+        let kk = T::mk(k, true);
+        let (c, g) = (s.contains(&kk), s.get(&kk).map(|x| x.id()));
+        let w = want.contains(&T::norm(k));
+        if c != w || g.is_some() != w {
+            vbail!("mismatch", "{}: contains({}) = {}, get = {:?}, but the element is {}", what, k, c, g, if w { "a member" } else { "not a member" });
+        }
+    }
+    if T::ZST {
+        return Ok(());
+    }
+    if let Some(&k) = want.iter().next_back() {
+        if s.insert(T::mk(k, true)) {
+            vbail!("mismatch", "{}: insert of member {} returned true (now {} elements, expected {})", what, k, s.len(), want.len());
+        }
+        if !s.remove(&T::mk(k, true)) || s.len() != want.len() - 1 {
+            vbail!("mismatch", "{}: remove({}) found nothing", what, k);
+        }
+    }
+    if !s.insert(T::mk(probe_to + 1, true)) || !s.contains(&T::mk(probe_to + 1, true)) {
+        vbail!("mismatch", "{}: inserting a new element into the result does not work", what);
+    }
+    Ok(())
+}
+
 fn c13_oracle<T: El>(a: &mut SetWorld<T>, b: &mut SetWorld<T>, _spec: &ShardSpec, _variant: usize) -> VResult<u64> {
     let ra: BTreeSet<u32> = a.r.keys().copied().collect();
     let rb: BTreeSet<u32> = b.r.keys().copied().collect();
@@ -302,16 +330,43 @@ fn c13_oracle<T: El>(a: &mut SetWorld<T>, b: &mut SetWorld<T>, _spec: &ShardSpec
     vcheck_eq!("intersection", ids_of(sa.intersection(sb), "intersection")?, v(ra.intersection(&rb).copied().collect()));
     vcheck_eq!("difference", ids_of(sa.difference(sb), "difference")?, v(ra.difference(&rb).copied().collect()));
     vcheck_eq!("symmetric_difference", ids_of(sa.symmetric_difference(sb), "symmetric_difference")?, v(ra.symmetric_difference(&rb).copied().collect()));
-    // operator forms build new sets (S: Default, T: Clone)
-    let u = window(|| sa | sb);
+    // the same through the provided methods a lazy iterator may override
+    let fold_ids = |v: Vec<u32>| {
+        let mut v = v;
+        v.sort();
+        v
+    };
+    vcheck_eq!("union.fold", fold_ids(sa.union(sb).fold(Vec::new(), |mut v, x| { v.push(x.id()); v })), v(ra.union(&rb).copied().collect()));
+    vcheck_eq!("intersection.fold", fold_ids(sa.intersection(sb).fold(Vec::new(), |mut v, x| { v.push(x.id()); v })), v(ra.intersection(&rb).copied().collect()));
+    vcheck_eq!("difference.fold", fold_ids(sa.difference(sb).fold(Vec::new(), |mut v, x| { v.push(x.id()); v })), v(ra.difference(&rb).copied().collect()));
+    vcheck_eq!("symmetric_difference.fold", fold_ids(sa.symmetric_difference(sb).fold(Vec::new(), |mut v, x| { v.push(x.id()); v })), v(ra.symmetric_difference(&rb).copied().collect()));
+    vcheck_eq!("union.count", sa.union(sb).count(), ra.union(&rb).count());
+    vcheck_eq!("intersection.count", sa.intersection(sb).count(), ra.intersection(&rb).count());
+    vcheck_eq!("difference.count", sa.difference(sb).count(), ra.difference(&rb).count());
+    vcheck_eq!("symmetric_difference.count", sa.symmetric_difference(sb).count(), ra.symmetric_difference(&rb).count());
+    vcheck_eq!("union.last", sa.union(sb).last().is_some(), ra.union(&rb).count() > 0);
+    vcheck_eq!("difference.nth(1)", sa.difference(sb).nth(1).is_some(), ra.difference(&rb).count() > 1);
+    // operator forms build new sets (S: Default, T: Clone): with a default hasher state that differs from
+    // both operands', the results must be fully working sets (lookups, re-insertion, removal, ==)
+    let (hk, s1, s2) = (a.cfg.hk, a.s.hasher().seed, b.s.hasher().seed);
+    crate::hasher::set_default_hb(hk, s1.wrapping_add(s2).wrapping_add(5));
+    let probe_to = a.next_key.max(b.next_key) + 2;
+    // every element of either operand, and two absent ones
+    let probes: Vec<u32> = ra.union(&rb).copied().chain([probe_to, probe_to + 3]).collect();
+    let mut u = window(|| sa | sb);
     vcheck_eq!("a | b", ids_of(u.iter(), "a | b")?, v(ra.union(&rb).copied().collect()));
     vcheck_eq!("(a | b).len", u.len(), ra.union(&rb).count());
-    let i = window(|| sa & sb);
+    working_set(&mut u, &ra.union(&rb).copied().collect(), &probes, probe_to, "a | b")?;
+    let mut i = window(|| sa & sb);
     vcheck_eq!("a & b", ids_of(i.iter(), "a & b")?, v(ra.intersection(&rb).copied().collect()));
-    let x = window(|| sa ^ sb);
+    working_set(&mut i, &ra.intersection(&rb).copied().collect(), &probes, probe_to, "a & b")?;
+    let mut x = window(|| sa ^ sb);
     vcheck_eq!("a ^ b", ids_of(x.iter(), "a ^ b")?, v(ra.symmetric_difference(&rb).copied().collect()));
-    let d = window(|| sa - sb);
+    working_set(&mut x, &ra.symmetric_difference(&rb).copied().collect(), &probes, probe_to, "a ^ b")?;
+    let mut d = window(|| sa - sb);
     vcheck_eq!("a - b", ids_of(d.iter(), "a - b")?, v(ra.difference(&rb).copied().collect()));
+    working_set(&mut d, &ra.difference(&rb).copied().collect(), &probes, probe_to, "a - b")?;
+    crate::hasher::set_default_hb(hk, s2);
     drop((u, i, x, d));
     vcheck_eq!("is_subset", sa.is_subset(sb), ra.is_subset(&rb));
     vcheck_eq!("is_superset", sa.is_superset(sb), ra.is_superset(&rb));
